@@ -89,11 +89,13 @@ type c15case struct {
 	workers int
 	delay   string
 	failNth int           // packet scans: the write of that frame (1-based) fails; the limiter must keep charging the rest
+	exclude bool          // an --exclude file is given as well (it names an address outside the target)
+	live    string        // arp: --live value; the run is interrupted once tg.n probes are on the wire
 	stall   time.Duration // the first probe (its Scan call / its write) lasts that long: the limiter idles, then must not let more than its fixed allowance burst out
 }
 
 func (k c15case) String() string {
-	return fmt.Sprintf("%s --rate %s target=%s workers=%d exit-delay=%s first-probe-stalls=%v failing-write=%d", k.cmd.name, k.rate.text, k.tg.name, k.workers, k.delay, k.stall, k.failNth)
+	return fmt.Sprintf("%s --rate %s target=%s workers=%d exit-delay=%s first-probe-stalls=%v failing-write=%d exclude-file=%v live=%q", k.cmd.name, k.rate.text, k.tg.name, k.workers, k.delay, k.stall, k.failNth, k.exclude, k.live)
 }
 
 func c15build(k c15case) (*vE2ESpec, *int64) {
@@ -101,8 +103,14 @@ func c15build(k c15case) (*vE2ESpec, *int64) {
 	if k.cmd.ports {
 		s.ports = k.tg.ports
 	}
+	if k.exclude {
+		s.exclude = []string{"10.99.0.1"}
+	}
 	sc := c01build(s)
 	sc.Args = append(sc.Args, "--rate", k.rate.text)
+	if k.live != "" {
+		sc.Args = append(sc.Args, "--live", k.live)
+	}
 	if k.workers > 0 {
 		sc.Args = append(sc.Args, "-w", fmt.Sprint(k.workers))
 	}
@@ -158,7 +166,13 @@ func c15build(k c15case) (*vE2ESpec, *int64) {
 			}
 		}
 	}
-	if k.cmd.kind != "app" && per >= 2 && k.tg.name != "201-ranges" && k.tg.name != "400-ranges" && k.stall == 0 && k.failNth == 0 {
+	if k.live != "" {
+		stop := k.tg.n
+		sc.Net = func(r *vE2ERun) {
+			vs.Block("probes-on-wire", func() bool { return len(zzvenv.W.Written) >= stop }, func() {})
+			vs.Visible("owner-sigint", func() { vs.S.Interrupt() })
+		}
+	} else if k.cmd.kind != "app" && per >= 2 && k.tg.name != "201-ranges" && k.tg.name != "400-ranges" && k.stall == 0 && k.failNth == 0 {
 		frame := c15reply(k.cmd, false)
 		sc.Net = func(r *vE2ERun) {
 			// the sender is asleep in the limiter between the probes at 0 and at per
@@ -199,7 +213,9 @@ func c15check(k c15case, run *vE2ERun, x *vs.Exec, injT int64) (class, msg strin
 	}
 	per := int64(k.rate.win) / k.rate.n
 	ts, threads := c15times(k, run)
-	if len(ts) != k.tg.n {
+	if k.live != "" && len(ts) >= k.tg.n && len(ts) <= k.tg.n+1 {
+		// live mode: interrupted by the owner once tg.n probes were out
+	} else if len(ts) != k.tg.n {
 		return "probe-count", fmt.Sprintf("%d probes left, the target denotes %d", len(ts), k.tg.n)
 	}
 	for i := 1; i < len(ts); i++ {
@@ -229,7 +245,7 @@ func c15check(k c15case, run *vE2ERun, x *vs.Exec, injT int64) (class, msg strin
 	if (k.tg.name == "201-ranges" || k.tg.name == "400-ranges") && k.cmd.kind != "app" {
 		wantLim = 2
 	}
-	if run.W.Limiters != wantLim {
+	if run.W.Limiters != wantLim && k.live == "" {
 		return "limiter-count", fmt.Sprintf("%d limiters were created, want %d (one per engine run, shared by all workers)", run.W.Limiters, wantLim)
 	}
 	// receiving is never slowed: the injected reply is read at the instant it arrives, and reported
@@ -322,6 +338,29 @@ func verifC15(c *drv.Ctx) {
 				} else {
 					runCase(c15case{cmd: cmd, tg: tg, rate: rate})
 				}
+			}
+		}
+		// the rate together with an --exclude file (two options parsed by the same function)
+		{
+			tgx := targets[0]
+			if !cmd.ports {
+				tgx = portless[0]
+			}
+			w := 0
+			if cmd.kind == "app" {
+				w = 2
+			}
+			runCase(c15case{cmd: cmd, tg: tgx, rate: c15rate{"100/s", 100, time.Second}, workers: w, exclude: true})
+			runCase(c15case{cmd: cmd, tg: tgx, rate: c15rate{"5/7s", 5, 7 * time.Second}, workers: w, exclude: true})
+		}
+		// live arp: the subnet is scanned again and again; the rate holds across the passes, also when its
+		// window is longer than the live interval
+		if cmd.kind == "arp" {
+			for _, lv := range []struct {
+				live string
+				rate c15rate
+			}{{"2s", c15rate{"16/8s", 16, 8 * time.Second}}, {"1s", c15rate{"100/s", 100, time.Second}}, {"500ms", c15rate{"1/s", 1, time.Second}}, {"10s", c15rate{"16/8s", 16, 8 * time.Second}}} {
+				runCase(c15case{cmd: cmd, tg: c15target{"24", "10.0.1.0/28", "", 24}, rate: lv.rate, live: lv.live})
 			}
 		}
 		// one write fails (ENOBUFS-like): every other frame is still charged and spaced
